@@ -94,7 +94,7 @@ func TestVerifC07ReservationHistory(t *testing.T) {
 		ownerOf := map[string]string{} // real pod -> reservation it was assigned to
 		real := map[string]bool{}      // live non-reserve pods
 		sigSuffix := ""                // set while a commit is being judged: which reservation shape the committed pod is in
-		var sawOwner, sawSpill, sawOwnerAfterSpill, sawNonOwnerAfterSpill, sawRefused, sawRestricted, sawTombstone, sawResvDeleted, sawNoNomination bool
+		var sawOwner, sawSpill, sawOwnerAfterSpill, sawNonOwnerAfterSpill, sawRefused, sawRestricted, sawTombstone, sawResvDeleted, sawNoNomination, sawOwnerAttemptAfterSpill, sawOtherAttemptAfterSpill bool
 		nResv := 0
 
 		resvNames := func() []string {
@@ -238,7 +238,27 @@ func TestVerifC07ReservationHistory(t *testing.T) {
 				}
 				// which reservations the pod is an owner of (decided by owner selectors in a real cluster)
 				var matched, unmatched []*c07Resv
+				// once a reservation has spilled, look at it again often: as its next owner, or as a pod it does not serve
+				focus, focusOwner := "", false
+				var spilledNames []string
 				for _, n := range resvNames() {
+					if spilled(resvs[n]) {
+						spilledNames = append(spilledNames, n)
+					}
+				}
+				if len(spilledNames) > 0 && rapid.Bool().Draw(t, "focusSpilled") {
+					focus = rapid.SampledFrom(spilledNames).Draw(t, "focus")
+					focusOwner = rapid.Bool().Draw(t, "focusAsOwner")
+				}
+				for _, n := range resvNames() {
+					if n == focus {
+						if focusOwner {
+							matched = append(matched, resvs[n])
+						} else {
+							unmatched = append(unmatched, resvs[n])
+						}
+						continue
+					}
 					if rapid.Bool().Draw(t, "ownerOf"+n) {
 						matched = append(matched, resvs[n])
 					} else {
@@ -249,6 +269,9 @@ func TestVerifC07ReservationHistory(t *testing.T) {
 				var req c07Request
 				if all := append(append([]*c07Resv{}, matched...), unmatched...); len(all) > 0 && rapid.IntRange(0, 4).Draw(t, "aimAtReservation") > 0 {
 					rv := all[rapid.IntRange(0, len(all)-1).Draw(t, "aimed")]
+					if focus != "" {
+						rv = resvs[focus]
+					}
 					var key string
 					for _, k := range c07Keys(rv.Flat) {
 						if strings.HasSuffix(k, "/"+string(apiext.ResourceGPUMemoryRatio)) || !strings.HasPrefix(k, "gpu/") {
@@ -301,6 +324,12 @@ func TestVerifC07ReservationHistory(t *testing.T) {
 					uInfos = append(uInfos, rv.RInfo)
 				}
 				tag := fmt.Sprintf("schedule %s [%s] owner-of=%v", name, req.Desc, mNames)
+				for _, rv := range matched {
+					sawOwnerAttemptAfterSpill = sawOwnerAttemptAfterSpill || spilled(rv)
+				}
+				for _, rv := range unmatched {
+					sawOtherAttemptAfterSpill = sawOtherAttemptAfterSpill || spilled(rv)
+				}
 				cs := framework.NewCycleState()
 				if _, st := pl.PreFilter(bg, cs, pod, nil); !st.IsSuccess() {
 					c.Class("request-rejected-before-allocation")
@@ -543,6 +572,8 @@ func TestVerifC07ReservationHistory(t *testing.T) {
 		})
 		c.ClassIf(sawOwner, "owner-allocated-through-reservation")
 		c.ClassIf(sawSpill, "owner-holds-more-than-reserved-on-reserved-device")
+		c.ClassIf(sawOwnerAttemptAfterSpill, "owner-of-spilled-reservation-scheduled(attempt)")
+		c.ClassIf(sawOtherAttemptAfterSpill, "non-owner-scheduled-while-a-reservation-is-spilled(attempt)")
 		c.ClassIf(sawOwnerAfterSpill, "owner-of-same-reservation-served-after-spill")
 		c.ClassIf(sawNonOwnerAfterSpill, "other-pod-served-on-spilled-device")
 		c.ClassIf(sawNoNomination, "matched-but-no-reservation-nominated")
